@@ -171,6 +171,7 @@ theorem evalPred_switched (env : Env) (a : Nat) (s : PState) (h : s.switched = t
   · rw [prepareCustom_switched]; exact h'
   · exact h'
   · exact h'
+  · exact h'
 
 theorem matchLit_switched (env : Env) (ic : Bool) (p0 : Nat) : ∀ (l : List Nat) (s : PState), (matchLit env ic p0 l s).1.switched = s.switched
   | [], _ => rfl
@@ -406,6 +407,7 @@ theorem evalPred_good (env : Env) (g : Gate) (a : Nat) (s : PState) (hs : actSaf
   · exact h'
   · exact h'
   · exact prepareCustom_good env g _ h'
+  · exact h'
   · exact good_of_same g (List.foldl (runEff env) s (env.acts[a]!).effs) _ rfl rfl rfl rfl rfl rfl h'
   · exact good_of_same g (List.foldl (runEff env) s (env.acts[a]!).effs) _ rfl rfl rfl rfl rfl rfl h'
 
